@@ -965,6 +965,25 @@ class BuiltinMixin(object):
           else:
             out.append((s, self.new_list(s, [s0])))
         return out
+      if z3.is_int_value(maxsplit) and 1 < maxsplit.as_long() <= 4 and isinstance(sep, (VStr, VBytes)):
+        # s.split(sep, m) for a small constant m: k = 1 .. m+1 parts p_i with s == p_0 sep p_1 ... and no separator inside any
+        # part but (when all m splits happened) the last
+        m = maxsplit.as_long()
+        out = []
+        for k in range(1, m + 2):
+          sk = st.fork()
+          parts = [fresh('part', z3.StringSort()) for _ in range(k)]
+          joined = parts[0]
+          for p_ in parts[1:]:
+            joined = z3.Concat(joined, sep.t, p_)
+          sk.assume(s0.t == joined)
+          for i_, p_ in enumerate(parts):
+            if i_ < k - 1 or k < m + 1:
+              sk.assume(z3.Not(z3.Contains(p_, sep.t)))
+          sk.assume(z3.Length(sep.t) > 0)
+          if self.feasible(sk):
+            out.append((sk, self.new_list(sk, [type(s0)(p_) for p_ in parts])))
+        return out
     raise Unsupported('str.split in general form')
 
   def m_str_replace(self, st, args, kwargs):
